@@ -85,8 +85,8 @@ from .ast import (
 )
 
 def quote(s):
-    assert s.replace('_', '').replace('.', '').replace('/', '').isalnum(), \
-        'Only use quote() with names or IDs in Stone.'
+    # Also used for text taken verbatim from a spec (doc reference values,
+    # identifiers with hyphens), so it must accept any string.
     return "'%s'" % s
 
 def parse_data_types_from_doc_ref(api, doc, namespace_context, ignore_missing_entries=False):
